@@ -1,9 +1,9 @@
 SPECIFICATION GSpec
 CONSTANTS
-  File <- FilesA
-  FDataSeq <- DataA
-  FOther <- OtherA
-  FSplit <- SplitA
+  File <- FilesI
+  FDataSeq <- DataI
+  FOther <- OtherI
+  FSplit <- SplitI
   Caps <- GenCaps
 VIEW FocusView
 INVARIANT EmitAll
